@@ -28,7 +28,7 @@ def ftol(dt, T):
     return (4 if dt in (torch.bfloat16, torch.float16) else 64) * e * max(1, T)
 
 
-def check_factor(res, case, tag, X, Xref, want_dtype, T):
+def check_factor(res, case, tag, X, Xref, want_dtype, T, exact_symmetry=True):
     import torch
     from kverif import kharness as kh
     if X.dtype != want_dtype:
@@ -43,7 +43,10 @@ def check_factor(res, case, tag, X, Xref, want_dtype, T):
         return False
     Xd = X.double()
     asym = float((Xd - Xd.t()).abs().max()) / max(float(Xd.abs().max()), 1e-300)
-    if asym > 4 * float(torch.finfo(X.dtype).eps):
+    # "symmetric" is exact: the batch moment is symmetrised and every later operation (decayed average, dtype cast, packing)
+    # treats (i,j) and (j,i) alike. Only a reduction over several ranks may round the two differently on a real backend, so
+    # multi-rank factors are allowed 4 eps. (The site audit showed that a 4 eps slack everywhere hid a dropped symmetrisation.)
+    if asym > (0.0 if exact_symmetry else 4 * float(torch.finfo(X.dtype).eps)):
         res.violation(f'{tag}: factor is not symmetric (relative asymmetry {asym:.2e})', case)
         return False
     lmin = float(torch.linalg.eigvalsh((Xd + Xd.t()) / 2).min())
@@ -177,9 +180,9 @@ def run_world(rng, res, idx):
                 want_a = want_g = kh.DT[cfg['fdt']] or kh.DT[cfg['pdt']]
                 if mixed:
                     want_a = want_g = (torch.float32 if n == names[0] else torch.float64)
-                if not check_factor(res, case, f'step {st}, rank {r}, layer {n}, A', Xa, A[n], want_a, T):
+                if not check_factor(res, case, f'step {st}, rank {r}, layer {n}, A', Xa, A[n], want_a, T, exact_symmetry=False):
                     return
-                if not check_factor(res, case, f'step {st}, rank {r}, layer {n}, G', Xg, G[n], want_g, T):
+                if not check_factor(res, case, f'step {st}, rank {r}, layer {n}, G', Xg, G[n], want_g, T, exact_symmetry=False):
                     return
     dd = cfg['decay']
     if T >= 2 and not (dd[0] == 'const' and dd[1] in (0.5, 1.0)):
